@@ -3,16 +3,27 @@ Proof: coq/Optim/{Checkpoint,CheckpointProofs}.v, Props/Properties_C15.v (no law
 Dynamic side, harness/opt_drv.cc `run` / `rung` operations on the REAL Model::save/load with
 statistics and Optimizer::save/load (files under /verif/_work/ckpt-tmp):
   (P) the property on the implementation itself: train k, save, load into fresh objects (same
-      Naive device, a second Naive instance, or an Eigen device; load-then-add or add-then-load),
-      train n, compare raw bits with k+n uninterrupted steps; gradients come from a deterministic
-      oracle (`run`) or from a real computation graph, a new Graph per step (`rung`);
-  (C) correspondence: the same two runs on the extracted model (float32 emulation), bit for bit."""
+      Naive device, a second Naive instance, or the whole comparison on devices::Eigen;
+      load-then-add or add-then-load), train n, compare raw bits with k+n uninterrupted steps ON THE
+      SAME BACKEND; gradients come from a deterministic oracle (`run`) or from a real computation
+      graph, a new Graph per step (`rung`);
+  (C) correspondence: the same two runs on the extracted model (float32 emulation), bit for bit.
+Every comparison is bitwise.  The one legitimate source of a difference - the clipping norm summed
+over >= 3 registered parameters in the iteration order of std::unordered_set<Parameter*>, which
+depends on the addresses - is removed by the driver: the i-th Parameter of every world of a case
+lives at the same address modulo every bucket count, the driver prints the orders, and they must
+agree (a pair whose orders do not agree, in an order-sensitive case, is only held to UNPINNED_TOL,
+is counted, and more than 1 % of such pairs is itself a violation)."""
 import re
 import pv
 from engines import optim_lib as L
 
-TOL_CLIP = 1e-4      # clipping on: the norm is summed in the iteration order of unordered_set
-TOL_EIGEN = 2e-3     # graph gradients on the Eigen backend (other tanh, other kernels)
+# Only for an order-sensitive pair whose worlds iterated in DIFFERENT orders (does not occur with the
+# pinned addresses: 0 of 1 245 000 cases, VERIF_SEED 1..30 quick and 1..8 thorough).  Before the
+# addresses were pinned the same sweep showed deviations of typically 1e-7 and once 8.7e-4 (RMSProp
+# with a clipped, tiny gradient divides by sqrt(m) ~ |g|: the rounding difference of the norm is
+# amplified without bound), so no tight tolerance exists for such pairs; this is a gross-error bound.
+UNPINNED_TOL = 1e-2
 
 
 def gen_cases(ctx):
@@ -45,22 +56,26 @@ def run(ctx):
     impl = pv.build_harness("plain", "opt_drv")
     cases, dist = gen_cases(ctx)
     cases = FIXED + cases
-    rc1, io, rc2, mo, mcases = L.two_pass(pv, cases, impl, model)
+    raw = []
+    rc1, io, rc2, mo, mcases = L.two_pass(pv, cases, impl, model, raw_out=raw)
     cov = ctx.cov
     cov["rule"] = ("case = optimizer of one of the six classes with random hyper-parameters, 1-4 real Parameters (some unregistered), "
                    "random lr scaling / decay / clipping / start epoch / earlier history / foreign statistics, then `run k n mode order`: "
                    "k+n uninterrupted steps versus k steps, Model::save(with_stats) + Optimizer::save, fresh default-constructed objects, "
-                   "load (mode 0 same device, 1 second Naive instance, 2 Eigen device; order 0 load-then-add, 1 add-then-load), n steps; "
-                   "`rung` = the same with gradients from a real Graph (new Graph per step). (P) U vs R on the implementation: bitwise "
-                   "when clipping is off and the backend is Naive, else within %g (clipping) / %g (Eigen graph) of max(1,|x|); "
-                   "(C) implementation vs model: bitwise (Eigen-resumed part within %g)" % (TOL_CLIP, TOL_EIGEN, TOL_CLIP))
+                   "load (mode 0 same device, 1 second Naive instance, 2 the whole comparison - uninterrupted run, interrupted run, files, resumed run - "
+                   "on devices::Eigen; order 0 load-then-add, 1 add-then-load), n steps; "
+                   "`rung` = the same with gradients from a real Graph (new Graph per step). (P) U vs R on the implementation, always on one backend: bitwise "
+                   "(the driver keeps the Parameters of all worlds of a case at the same addresses modulo the bucket counts of unordered_set, so that the "
+                   "clipping norm is summed in the same order; the printed orders must agree; an order-sensitive pair whose orders differ is held to %g of "
+                   "max(1,|x|) only, is counted, and > 1 %% of them is a violation); (C) implementation vs model: bitwise, the Eigen runs included" % UNPINNED_TOL)
     cov["input_distribution"] = dist
     cov["evaluations"] = len(cases)
     cov["traces_validated_against_impl"] = min(len(io), len(cases))
     if rc2 != 0 or len(mo) < len(cases):
         ctx.violation("model-optim", {"kind": "model-driver-crash", "rc": rc2, "tail": mo[-3:]}, False, "model driver failed")
-    stats = {"runs": 0, "runs_bitwise_equal": 0, "runs_within_tolerance": 0, "graph_runs": 0, "graph_runs_bitwise_equal": 0,
-             "graph_runs_within_tolerance": 0, "resume_failed": 0, "model_vs_impl_bitwise_ops": 0, "model_vs_impl_tolerated_ops": 0}
+    stats = {"runs": 0, "runs_bitwise_equal": 0, "graph_runs": 0, "graph_runs_bitwise_equal": 0,
+             "resume_failed": 0, "model_vs_impl_bitwise_ops": 0,
+             "eigen_runs": 0, "order_sensitive_runs": 0, "order_sensitive_runs_orders_differ_not_bitwise": 0, "worst_deviation_when_orders_differ": 0.0}
     nprop, ncorr = 0, 0
     nontrivial = set()
     for i, c in enumerate(cases):
@@ -68,49 +83,54 @@ def run(ctx):
         y = mo[i] if i < len(mo) else "<no output>"
         xs, ys = x.split(" ; "), y.split(" ; ")
         ops = [o.split() for o in (p.strip() for p in c.split(";")[1:]) if o.split() and o.split()[0] != "param"]
-        clip = L.has_clip(c)
+        osens = L.order_sensitive(c)
         for k, out in enumerate(xs):
             op = ops[k] if k < len(ops) else ["?"]
             mout = ys[k] if k < len(ys) else "<missing>"
             if out.startswith("run U ") or out.startswith("rung U "):
                 graph = out.startswith("rung")
-                u, rr = L.split_run(out.replace("rung U", "run U", 1))
+                u, rr, ue = L.split_run(out.replace("rung U", "run U", 1))
                 mode = op[3] if len(op) > 3 else "0"
                 stats["graph_runs" if graph else "runs"] += 1
-                # (P) the property on the implementation itself
-                if u == "err" or rr == "err":
+                # (P) the property on the implementation itself; both sides on the same backend:
+                # mode 2 compares the Eigen-resumed run with the uninterrupted run on Eigen (UE)
+                ref = ue if mode == "2" else u
+                rawop = raw[i].split(" ; ")[k] if i < len(raw) and k < len(raw[i].split(" ; ")) else ""
+                agree = L.orders_agree(rawop)
+                if mode == "2":
+                    stats["eigen_runs"] += 1
+                if osens:
+                    stats["order_sensitive_runs"] += 1
+                if ref is None or ref == "err" or rr == "err" or u == "err":
                     stats["resume_failed"] += 1
                     ok = False
-                elif u == rr:
+                elif ref == rr:
                     stats["graph_runs_bitwise_equal" if graph else "runs_bitwise_equal"] += 1
                     ok = True
                     nontrivial.add(c)
                 else:
-                    tol = None
-                    if mode == "2" and graph:
-                        tol = TOL_EIGEN
-                    elif clip or mode == "2":
-                        tol = TOL_CLIP
-                    ok = tol is not None and L.close(u, rr, tol)
+                    dev = L.order_deviation(ref, rr) if (osens and not agree) else None
+                    ok = dev is not None and max(dev) <= UNPINNED_TOL
                     if ok:
-                        stats["graph_runs_within_tolerance" if graph else "runs_within_tolerance"] += 1
+                        stats["order_sensitive_runs_orders_differ_not_bitwise"] += 1
+                        stats["worst_deviation_when_orders_differ"] = max(stats["worst_deviation_when_orders_differ"], max(dev))
                         nontrivial.add(c)
                 if not ok:
                     nprop += 1
                     if nprop <= 3:
                         ctx.violation("resume", {"kind": "property-on-implementation", "case": c, "op": " ".join(op),
-                                                 "uninterrupted": u, "resumed": rr, "witness": "resume :: %s" % c,
+                                                 "uninterrupted": ref, "resumed": rr, "witness": "resume :: %s" % c,
                                                  "impl_driver": impl}, True,
-                                      "`%s` of `%s`: uninterrupted `%s` vs checkpoint+resume `%s`" % (" ".join(op), c[:300], (u or "")[:400], (rr or "")[:400]))
+                                      "`%s` of `%s`: uninterrupted `%s` vs checkpoint+resume `%s`" % (" ".join(op), c[:300], (ref or "")[:400], (rr or "")[:400]))
                 # (C) model vs implementation
                 if graph:
                     continue
-                mu, mr = L.split_run(mout)
-                good = (u == mu) and (rr == mr or (mode == "2" and mr is not None and L.close(rr, mr, TOL_CLIP)))
-                if u == mu and rr == mr:
+                mu, mr, _ = L.split_run(mout)
+                # mode 2: R ran on Eigen throughout, the model is the Naive arithmetic: the optimizer kernels are
+                # elementwise IEEE operations on both (bitwise on every case of the sweep, 1 245 000 cases)
+                good = (u == mu) and (rr == mr)
+                if good:
                     stats["model_vs_impl_bitwise_ops"] += 1
-                elif good:
-                    stats["model_vs_impl_tolerated_ops"] += 1
             elif out.startswith("rung"):
                 continue
             else:
@@ -131,6 +151,11 @@ def run(ctx):
             if ncorr <= 3:
                 ctx.violation("corr-optim", {"kind": "correspondence", "engine": "optim", "case": c, "impl": x[-300:], "model": y[-300:],
                                              "witness": "optim :: %s" % c}, nprop > 0, "output lengths differ on `%s`" % c[:300])
+    if stats["order_sensitive_runs_orders_differ_not_bitwise"] * 100 > max(1, stats["order_sensitive_runs"]):
+        ctx.violation("order-pin", {"kind": "driver", "order_sensitive_runs": stats["order_sensitive_runs"],
+                                    "not_bitwise_because_orders_differ": stats["order_sensitive_runs_orders_differ_not_bitwise"]}, False,
+                      "the driver no longer gives the worlds of a case the same iteration order: %d of %d order-sensitive runs were only compared within %g"
+                      % (stats["order_sensitive_runs_orders_differ_not_bitwise"], stats["order_sensitive_runs"], UNPINNED_TOL))
     if rc1 != 0:
         ctx.violation("impl-crash", {"kind": "impl-driver-crash", "rc": rc1, "case": cases[len(io)] if len(io) < len(cases) else "<end>",
                                      "witness": "crash"}, True, "C++ driver crashed (rc=%d)" % rc1)
@@ -140,10 +165,11 @@ def run(ctx):
         sub = cases[:: max(1, len(cases) // 6000)]
         rca, ioa, _, _, _ = L.two_pass(pv, sub, impl2, model, impl_env={"ASAN_OPTIONS": "detect_leaks=0"})
         ref = {c: o for c, o in zip(cases, io)}
-        # outputs are comparable bit for bit only where neither the (address dependent) iteration
-        # order of the registered set nor the Eigen kernels can show: clipping off, no Eigen graph run
+        # outputs are compared bit for bit (the pinned addresses make the iteration order, hence the
+        # clipped updates, independent of the process image) except where the Eigen kernels of the two
+        # builds may differ: no Eigen graph run
         def comparable(c):
-            return not L.has_clip(c) and not re.search(r"rung \d+ \d+ 2", c)
+            return not re.search(r"rung \d+ \d+ 2", c)
         bada = [c for c, o in zip(sub, ioa) if comparable(c) and ref.get(c) != o]
         cov["asan_cases_compared_bitwise"] = sum(1 for c in sub if comparable(c))
         cov["asan_cases"] = len(sub)
@@ -160,7 +186,8 @@ def run(ctx):
         "Checkpoint.v abstracts the byte encoding of the two files to the record of the fields written (values and all statistics of every parameter of the model; Optimizer.epoch, lr_scale, l2_strength, clip_threshold and the class's hyper-parameters); Properties_C15_bytes.v removes the abstraction by composing with the io engine's model of the actual bytes and its C13 round trips, under C13's hypotheses (sizes < 2^32, tensors < 2^30 elements, distinct paths, epoch < 2^32), all shown invariant under training; scalars enter there through an injective map to their binary32 words (Section variables bits/unbits)",
         "the training step is the documented loop reset_gradients -> forward/backward -> update, and the gradient is a function of the step number and the current parameter values (deterministic model); gradient buffers are not saved (load zeroes them), so a loop that accumulates gradients across update() calls is outside the theorem",
         "the program re-registers the same parameters with an optimizer of the same class; which parameters are registered and the class are not in the files",
-        "iteration order of std::unordered_set<Parameter*> (new addresses after resume): C15_resume_equiv_any_iteration_order proves the equivalence for every permutation of the registered list, without laws on the scalars when clipping is off and assuming associative-commutative addition when it is on (the order only permutes the summation of the norm); hence the implementation is compared bitwise when clipping is off and within %g otherwise" % TOL_CLIP,
+        "iteration order of std::unordered_set<Parameter*> (new addresses after resume): C15_resume_equiv_any_iteration_order proves the equivalence for every permutation of the registered list, without laws on the scalars when clipping is off and assuming associative-commutative addition when it is on (the order only permutes the summation of the norm); the dynamic comparison cannot follow the theorem there (float addition is not associative and RMSProp / AdaGrad amplify the difference without bound), so the driver pins the iteration order (same addresses modulo the bucket counts in every world) and everything is compared bitwise; that a different order after resume only permutes the summation is left to the theorem",
+        "resume on another backend than the one that trained is not compared (Naive against Eigen is backend equivalence, C08): mode 2 runs both sides of the comparison on devices::Eigen, mode 1 on two instances of devices::Naive",
         "the model is tied to the code by the bit-for-bit correspondence of the same runs (devices::Naive; float32 emulation as in C12)",
     ]
     if not res["ok"]:
@@ -179,6 +206,7 @@ def replay(ctx, obj):
     rc1, io, rc2, mo, mc = L.two_pass(pv, [case], impl, model)
     print("implementation:", io[0] if io else "<none>")
     print("model         :", mo[0] if mo else "<none>")
-    same = bool(io and mo and io[0].split(" ; ")[:len(mo[0].split(" ; "))] == mo[0].split(" ; "))
+    strip = lambda ops: [re.sub(r" UE .*$", "", o) for o in ops]      # the model has no Eigen run
+    same = bool(io and mo and strip(io[0].split(" ; "))[:len(mo[0].split(" ; "))] == mo[0].split(" ; "))
     print("REPRODUCED" if not same else "model and implementation agree on this case now (see U/R parts for the property itself)")
     return 0
